@@ -2944,6 +2944,17 @@ int x509_exts_check(const uint8_t *exts, size_t extslen, int cert_type,
 		}
 	}
 
+	// a certificate used as an issuer must assert cA = TRUE, absence of BasicConstraints means not a CA
+	if (ca != 1) {
+		switch (cert_type) {
+		case X509_cert_ca:
+		case X509_cert_root_ca:
+		case X509_cert_crl_sign:
+			error_print();
+			return -1;
+		}
+	}
+
 	return 1;
 }
 
